@@ -14,4 +14,31 @@ def whileN {σ : Type} : Nat → (σ → Bool) → (σ → σ) → σ → σ
 theorem whileN_succ {σ : Type} (n : Nat) (c : σ → Bool) (f : σ → σ) (s : σ) :
     whileN (n+1) c f s = if c s then whileN n c f (f s) else s := rfl
 
+/-! ### signed 64-bit / 8-bit values (`ptrdiff_t`, `int8_t`) as `Int`, two's complement conversions (area Pool) -/
+
+/-- `static_cast<ptrdiff_t>(n)` for a 64-bit word `n`: the two's complement reading -/
+def toI64 (n : Nat) : Int :=
+  if n % 18446744073709551616 < 9223372036854775808 then ((n % 18446744073709551616 : Nat) : Int)
+  else ((n % 18446744073709551616 : Nat) : Int) - 18446744073709551616
+/-- `static_cast<size_t>(x)` for a signed `x`: the value mod 2^64 -/
+def ofI64 (x : Int) : Nat := (x % 18446744073709551616).toNat
+/-- reduction of an exact signed result to 64-bit two's complement. Signed overflow is undefined behaviour in C++;
+    the equivalence theorems assume bounds under which `wI64 x = x` -/
+def wI64 (x : Int) : Int := toI64 (ofI64 x)
+/-- `static_cast<int8_t>(x)`: reduction to `[-128, 128)` -/
+def wI8 (x : Int) : Int := (x + 128) % 256 - 128
+def addI64 (a b : Int) : Int := wI64 (a + b)
+def subI64 (a b : Int) : Int := wI64 (a - b)
+def mulI64 (a b : Int) : Int := wI64 (a * b)
+def negI64 (a : Int) : Int := wI64 (-a)
+/-- `a & b` on `ptrdiff_t`: bitwise on the two's complement words -/
+def andI64 (a b : Int) : Int := toI64 (ofI64 a &&& ofI64 b)
+/-- `~x` on `size_t` (`x < 2^64`) -/
+def not64 (x : Nat) : Nat := 18446744073709551615 - x % 18446744073709551616
+
+/-! ### byte arrays as functions (area HashMeta) -/
+
+/-- array write `a[i] = v` on an array represented as a function of the index -/
+def upd (a : Nat → Nat) (i v : Nat) : Nat → Nat := fun j => if j = i then v else a j
+
 end Momo.Tr
